@@ -220,6 +220,7 @@ type Universe struct {
 	epochs    map[int]epochRel
 	accessed  map[string]bool
 	epochAlloc map[int]string // allocation counter at the creation of an epoch
+	onLazyFact func(string)          // set by the translator: where relations of lazily declared constants go
 	mapValType map[string]types.Type // MV_ component -> Go type of the map values
 	sortTypes  map[string]types.Type // struct sort -> a Go type with that sort (for values read out of raw SMT arrays)
 }
@@ -230,6 +231,8 @@ type epochRel struct {
 	regions  []string
 	allocPre string
 	merge    []epochEdge // a control-flow merge: under cond the components equal those of epoch
+	keep     string      // after a havoc of everything: cells a satisfying keep(a) still hold their parent-epoch value
+	keepMaps string      // the same for map components (a = the map)
 }
 
 type epochEdge struct {
@@ -657,6 +660,14 @@ func (u *Universe) declCompConst(name string, e int) string {
 		// ghost / map components are not affected by a region write
 		parent := u.declCompConst(name, rel.parent)
 		u.decls = append(u.decls, fmt.Sprintf("(assert (= %s %s))", cn, parent))
+	} else if ok && rel.keep != "" && strings.Contains(name, "$") {
+		// a partition first used after a havoc of everything: protected cells kept their value.  The relation is a fact
+		// about a tracked constant, so that the cone of influence of a goal that mentions it pulls in the holders' definitions
+		parent := u.declCompConst(name, rel.parent)
+		u.lazyFact(cn, fmt.Sprintf("(forall ((a Int)) (! (=> %s (= (select %s a) (select %s a))) :pattern ((select %s a))))", rel.keep, cn, parent, cn))
+	} else if ok && rel.keepMaps != "" && (strings.HasPrefix(name, "MD_") || strings.HasPrefix(name, "MV_") || strings.HasPrefix(name, "ML_")) {
+		parent := u.declCompConst(name, rel.parent)
+		u.lazyFact(cn, fmt.Sprintf("(forall ((a Int)) (! (=> %s (= (select %s a) (select %s a))) :pattern ((select %s a))))", rel.keepMaps, cn, parent, cn))
 	}
 	if strings.HasPrefix(name, "MV_") && e > 0 {
 		if f := u.mapValWF(name, cn); f != "" {
@@ -685,6 +696,16 @@ func (u *Universe) declCompConst(name string, e int) string {
 }
 
 // map components: domain and value arrays per (key sort, value sort)
+// lazyFact records a relation of a lazily declared component constant to earlier state
+func (u *Universe) lazyFact(cn, f string) {
+	if u.onLazyFact != nil {
+		u.genConsts[cn] = true
+		u.onLazyFact(f)
+		return
+	}
+	u.decls = append(u.decls, "(assert "+f+")")
+}
+
 func (u *Universe) mapComps(m *types.Map) (dom, val string, ks, vs string) {
 	ks = u.sortOf(m.Key())
 	vs = u.sortOf(m.Elem())
